@@ -122,6 +122,8 @@ class OptCase:
             except Exception:
                 opt, kw = self.make_optimizer()
         Bc = self.B.copy()
+        if self.meta.get("dtype") in ("int64", "int32") and np.array_equal(np.round(Bc), Bc):
+            Bc = Bc.astype(self.meta["dtype"])       # integer-valued data stored as integers (the Identity basis keeps that dtype)
         if self.meta.get("dtype") in ("float32", "float16"):
             # entries are small integers / dyadic (callers check exact representability): the same matrix, stored narrower.
             # CCQR / GQR work on a copy of at least single precision (result_type(dtype, float32)).
